@@ -20,6 +20,16 @@ CLAIMS = {
         "technique": "Lean 4 proof over translated ETDRK definitions + model/implementation correspondence",
         "design_ref": "DESIGN.md §5 C02",
     },
+    "C13": {
+        "text": "Lean theorems over any field about the conversion functions regenerated from stepper/generic/_utils.py on "
+                "every run (documented formulas alpha_j=a_j*dt/L^j, gamma_j=alpha_j*N^j*2^(j-1)*D, convection/gradient-norm/"
+                "polynomial scales; all normalize/denormalize and reduce/extract pairs are mutual inverses) and about the "
+                "regenerated ETDRK code (scaling covariance step(dt,lambda,N)=step(1,dt*lambda,dt*N): only the non-dimensional "
+                "groups matter). Correspondence: conversions and every member of the specific/generic/normalized/difficulty "
+                "families vs the one model evaluated on the documented equivalent. Oracle: specific-vs-generic pairs of the overview.",
+        "technique": "Lean 4 proof over translated conversion/ETDRK definitions + model/implementation correspondence",
+        "design_ref": "DESIGN.md §5 C13",
+    },
 }
 
 PENDING_REASON = "check not built yet in this session (model and theorems planned in DESIGN.md §5); not claimed until its check exists"
